@@ -157,6 +157,6 @@ example : (run ((fun _ => 5), [start (abstractCall .sharedWrite [0] 10 0), start
 
 /-- The hypotheses of `table_safe_sequential` are satisfiable. -/
 example : ∀ l ∈ [0, 1, 2], l < 3 := by decide
-example : claimedSafe.length = 354 ∧ table.length = 354 := by decide +kernel
+example : claimedSafe.length = 356 ∧ table.length = 356 := by decide +kernel
 
 end Kyber.C20
